@@ -39,6 +39,7 @@ structure Row where
   createdAt : Nat
   lastAttempt : Option Nat   -- none = the zero time.Time of a task that was never attempted
   delay : Nat
+  payload : List Nat := []   -- the task's other columns (digest, dependencies, …): what the executor is handed
   deriving DecidableEq, Repr
 
 inductive Pool where
@@ -75,7 +76,7 @@ structure State where
   deriving DecidableEq, Repr
 
 inductive Op where
-  | addBegin (k : Key) (delay : Nat)
+  | addBegin (k : Key) (delay : Nat) (payload : List Nat)
   | addEnq (k : Key)
   | pollFetch
   | pollMark
@@ -98,8 +99,8 @@ inductive Out where
 
 def hasKey (rows : List Row) (k : Key) : Bool := rows.any (fun r => r.key == k)
 
-def newRow (k : Key) (st : Status) (now delay : Nat) : Row :=
-  { key := k, status := st, failures := 0, createdAt := now, lastAttempt := none, delay := delay }
+def newRow (k : Key) (st : Status) (now delay : Nat) (payload : List Nat := []) : Row :=
+  { key := k, status := st, failures := 0, createdAt := now, lastAttempt := none, delay := delay, payload := payload }
 
 def failRow (now : Nat) (r : Row) : Row :=
   { r with status := .failed, failures := r.failures + 1, lastAttempt := some now }
@@ -159,14 +160,14 @@ def enqueue (s : State) (k : Key) (p : Pool) : State × Out :=
     ({ s with own := dropKey s.own k }, .errNotFound)
 
 def stepO (s : State) : Op → State × Out
-  | .addBegin k d =>
+  | .addBegin k d pl =>
     match s.mode with
     | .up =>
       if hasKey s.rows k then (s, .dup)       -- ErrTaskExists: "No-op on duplicate tasks"
       else if d = 0 then
-        ({ s with rows := s.rows ++ [newRow k .pending s.now d], own := place s.own k .adding },
+        ({ s with rows := s.rows ++ [newRow k .pending s.now d pl], own := place s.own k .adding },
           .addedPending)
-      else ({ s with rows := s.rows ++ [newRow k .failed s.now d] }, .addedFailed)
+      else ({ s with rows := s.rows ++ [newRow k .failed s.now d pl] }, .addedFailed)
     | _ => (s, .closed)
   | .addEnq k =>
     if placeOf s.own k = some .adding then enqueue s k .inc else (s, .notEnabled)
@@ -237,6 +238,10 @@ def statusOf (rows : List Row) (k : Key) : Option Status :=
   (rows.find? fun r => r.key = k).map (·.status)
 
 instance (s : State) (k : Key) : Decidable (stored s k) := by unfold stored; exact inferInstance
+
+/-- the payload (digest, dependencies, … = what the executor is handed) stored for a key -/
+def payloadOf (rows : List Row) (k : Key) : Option (List Nat) :=
+  (rows.find? fun r => r.key = k).map (·.payload)
 
 /-! ### `SyncExec`: in-place retries with a bounded number of attempts (no persistence) -/
 
